@@ -69,7 +69,7 @@ func (ex *Exec) addrFromSlice(st *State, s Val) (Val, string) {
 }
 
 func is4in6(a Val) string {
-	return and(app(">=", a.L[2], "6"), eq(a.L[0], "0"), eq(app("div", a.L[1], "4294967296"), "65535"))
+	return and(app(">=", a.L[2], "6"), eq(a.L[0], "0"), app("<=", "281470681743360", a.L[1]), app("<=", a.L[1], "281474976710655"))
 }
 
 func unmap(a Val) Val {
